@@ -102,7 +102,7 @@ PROPS["C17"] = dict(
     modules=["FjallModel.Props.C17"],
     theorems=["Fjall.Version.c17_version_accepts_iff", "Fjall.Version.c17_refused_open_writes_nothing",
               "Fjall.Version.c17_locked_refuses", "Fjall.Version.c17_open_ok_only_when_free",
-              "Fjall.Version.c17_unlocked_after_last_drop", "Fjall.Version.c17_late_lock_spoils_live_directory", "Fjall.Version.c17_marker_absent_refused"],
+              "Fjall.Version.c17_unlocked_after_last_drop", "Fjall.Version.c17_late_lock_spoils_live_directory", "Fjall.Version.c17_open_during_drop_sees_synced_journal", "Fjall.Version.c17_open_during_flush_refused", "Fjall.Version.c17_lock_released_before_sync_counterexample", "Fjall.Version.c17_marker_absent_refused"],
     statements={
         "c17_version_accepts_iff": "forall marker bytes: checkVersion bytes = ok <-> bytes starts with 'F' 'J' 'L' 0x03",
         "c17_refused_open_writes_nothing": "on a directory with a marker, a refused open (wrong/unknown version, or locked) leaves the directory state unchanged",
